@@ -42,7 +42,15 @@ Ltac blk_crush :=
           | |- context [match ?o with Some _ => _ | None => _ end] => is_var o; destruct o
           end);
   cbv beta iota zeta;
-  repeat (f_equal; try lia); try lia; try (exfalso; lia).
+  repeat match goal with
+         | |- (_, _) = (_, _) => f_equal
+         | |- mkB _ _ = mkB _ _ => f_equal
+         | |- Some _ = Some _ => f_equal
+         end;
+  try reflexivity; try lia; try (exfalso; lia);
+  try match goal with
+      | |- ?x = ?y => destruct x eqn:?; destruct y eqn:?; try reflexivity; exfalso; lia
+      end.
 
 Lemma block_spec : forall c now b, block c now b = block_hand c now b.
 Proof.
@@ -55,7 +63,7 @@ Qed.
 Lemma is_blocked_spec : forall now b, is_blocked now b = is_blocked_hand now b.
 Proof.
   intros now [l o]; unfold is_blocked, is_blocked_hand, BlockingStatus_is_blocked; cbn [b_until b_last].
-  blk_crush; match goal with |- ?x = ?y => destruct x eqn:?; destruct y eqn:?; try reflexivity; exfalso; lia end.
+  blk_crush.
 Qed.
 
 (* ------------------------------------------------------------------ finish *)
